@@ -322,4 +322,4 @@ def floors(st, tier):
     return ['class %r never observed' % c for c in req if st['classes'].get(c, 0) == 0]
 
 
-extra_passes = thorough_aux('props.c18', ('miri',), nreq=30)
+extra_passes = thorough_aux('props.c18', ('miri',), nreq=30, exh=True)
